@@ -26,7 +26,9 @@ import (
 	"github.com/git-lfs/git-lfs/v3/verifx/vx"
 )
 
-var c14Paths = []string{"a", "b", "c"}
+// three path names; two of them differ only in trailing white space and one starts with white space and contains a directory
+// separator and an inner space: whatever the filter does with the pathname header, these must stay three different files
+var c14Paths = []string{"a", "a ", " b/c d"}
 
 // c14Op is one element of the request alphabet.  Kind "finish" is the macro step Git's finish_delayed_checkout
 // performs: rounds of list_available_blobs, each followed by a content-less smudge for every announced path,
@@ -1157,7 +1159,7 @@ func TestVerifC14(t *testing.T) {
 		"the canonical key merges only states in which everything the filter loop remembers (ptrs map, q nil/alive, fresh closeOnce/available per queue) and the local store are equal; queue contents equal the delayed map because paths are distinct within a phase",
 		"one-shot reference = the same git-lfs binary run as `git-lfs clean -- <path>` / `git-lfs smudge [--skip] -- <path>` on the same bytes in a fresh repository whose local store holds exactly the objects observed in the filter's repository before the request; a one-shot filter that exits non-zero corresponds to a failure status (error/abort), never to content",
 		"lfs.transfer.maxretries=1, lfs.transfer.maxretrydelay=0 in every repository (identical for filter-process and one-shot runs) so that failing downloads end quickly; no oracle depends on time",
-		"the work tree holds no file for a/b/c (clean's progress callback is off in both the one-shot and the long-running filter)",
+		"the work tree holds no file for the three paths (clean's progress callback is off in both the one-shot and the long-running filter)",
 	}
 	only := os.Getenv("VERIF_ONLY")
 	if c.Replay != "" {
